@@ -3,16 +3,19 @@ package c12
 
 import (
 	"fmt"
+	"go/token"
 	"go/types"
 	"math/rand"
 	"reflect"
 	"sort"
 	"strings"
 
+	"github.com/octohelm/gengo/pkg/gengo"
 	gengotypes "github.com/octohelm/gengo/pkg/types"
 
 	"verif/internal/core"
 	"verif/internal/fixture"
+	"verif/internal/pipeline"
 )
 
 func init() { core.Register(&prop{}) }
@@ -94,6 +97,7 @@ type gen struct {
 	// trailing shape of the previous emitted source line ("" if none / not a declaration line)
 	prevTrailing string
 	nameN        int
+	nameHint     string
 	last         []*expect
 }
 
@@ -110,6 +114,12 @@ func (g *gen) mark() string {
 
 func (g *gen) name(prefix string) string {
 	g.nameN++
+	if h := g.nameHint; h != "" {
+		// the declaration is named after the first word of its own doc comment ("m12 text" documents m12), the
+		// godoc convention that gengo's Context.Doc relies on when it strips the leading name
+		g.nameHint = ""
+		return h
+	}
 	return fmt.Sprintf("%s%d", prefix, g.nameN)
 }
 
@@ -199,6 +209,12 @@ func (g *gen) doc(ind string, allowMultiBlock bool) docResult {
 		res.shape = "detached-block"
 		g.emit(ind + "/* " + g.mark() + " */")
 		g.emit("")
+	}
+	g.nameHint = ""
+	if len(res.lines) > 0 && g.r.Intn(3) == 0 {
+		if w := strings.Fields(res.lines[0]); len(w) > 0 && token.IsIdentifier(w[0]) {
+			g.nameHint = w[0]
+		}
 	}
 	return res
 }
@@ -520,6 +536,82 @@ func (p *prop) runLayout(c core.Case, w *core.Worker, res *core.Result) {
 		if strings.Contains(e.Shape, "prev=line") || strings.Contains(e.Shape, "prev=block") {
 			if strings.Contains(e.Shape, "doc=none") {
 				res.Inc("undocumented_decl_after_trailing_comment")
+			}
+		}
+	}
+	// third pass, through a running generator: gengo's own Context.Doc (which removes the leading name from the first
+	// line) is called for a type and its fields FIRST, then Package.Doc / Package.Comment for the same position - what
+	// the context does with its copy must not change what the package answers
+	if pa.Pkgs > 0 && c.ID%2 == 0 {
+		byKey := map[string]*expect{}
+		for _, e := range g.out {
+			byKey[e.Pkg+"|"+e.Kind+"|"+e.Owner+"|"+e.Name] = e
+		}
+		type obsv struct {
+			e        *expect
+			tags     map[string][]string
+			doc, tr  []string
+			ctx1     []string
+			ctx2     []string
+			panicked string
+		}
+		var seen []obsv
+		b := &pipeline.Behaviour{Name: "c12probe"}
+		b.OnType = func(gc gengo.Context, named *types.Named, inst *pipeline.Instance) error {
+			pkg := gc.Package("")
+			pkgName := named.Obj().Pkg().Name()
+			probe := func(obj types.Object, e *expect) {
+				if e == nil {
+					return
+				}
+				o := obsv{e: e}
+				if pk, pv, _ := core.Guard(func() {
+					_, d1 := gc.Doc(obj)
+					o.ctx1 = append([]string(nil), d1...)
+					tags, doc := pkg.Doc(obj.Pos())
+					o.tags, o.doc, o.tr = tags, append([]string(nil), doc...), append([]string(nil), pkg.Comment(obj.Pos())...)
+					_, d2 := gc.Doc(obj)
+					o.ctx2 = append([]string(nil), d2...)
+				}); pk {
+					o.panicked = fmt.Sprint(pv)
+				}
+				seen = append(seen, o)
+			}
+			probe(named.Obj(), byKey[pkgName+"|type||"+named.Obj().Name()])
+			if st, ok := named.Underlying().(*types.Struct); ok {
+				for i := 0; i < st.NumFields(); i++ {
+					probe(st.Field(i), byKey[pkgName+"|field|"+named.Obj().Name()+"|"+st.Field(i).Name()])
+				}
+			}
+			return nil
+		}
+		var entries []string
+		for i := 0; i < pa.Pkgs; i++ {
+			entries = append(entries, fmt.Sprintf("./p%d", i))
+		}
+		out := pipeline.Execute(m.Root, &gengo.GeneratorArgs{Entrypoint: entries, OutputFileBaseName: "zz_generated", Globals: map[string][]string{"gengo:c12probe": {"true"}}}, pipeline.New(b))
+		if out.Failed() {
+			res.Inconclusive = append(res.Inconclusive, "through-context pass: Execute failed: "+out.ErrString())
+		}
+		for _, o := range seen {
+			e := o.e
+			res.Inc("through_context_queries")
+			where := fmt.Sprintf("%s %s (line %d of %s/%s)", e.Kind, e.Name, e.Line, e.Pkg, e.File)
+			if o.panicked != "" {
+				res.Fail("doc-lines", "after Context.Doc: panic", where+": "+o.panicked, e)
+				continue
+			}
+			if !sameLines(o.doc, e.Doc) {
+				res.Fail("doc-lines", "after Context.Doc "+e.Shape, fmt.Sprintf("%s: Package.Doc called after Context.Doc for the same object = %q, want %q (Context.Doc had returned %q)", where, o.doc, e.Doc, o.ctx1), e)
+			}
+			if !sameTags(o.tags, e.Tags) {
+				res.Fail("doc-tags", "after Context.Doc "+e.Shape, fmt.Sprintf("%s: Package.Doc tags after Context.Doc = %v, want %v", where, o.tags, e.Tags), e)
+			}
+			if !sameLines(o.tr, e.Trailing) && !(len(e.AltTrailing) > 0 && sameLines(o.tr, e.AltTrailing)) {
+				res.Fail("trailing", "after Context.Doc "+e.Shape, fmt.Sprintf("%s: Package.Comment after Context.Doc = %q, want %q", where, o.tr, e.Trailing), e)
+			}
+			if !sameLines(o.ctx1, o.ctx2) {
+				res.Fail("doc-lines", "Context.Doc twice "+e.Shape, fmt.Sprintf("%s: Context.Doc returned %q, then %q for the same object", where, o.ctx1, o.ctx2), e)
 			}
 		}
 	}
